@@ -234,6 +234,22 @@ class Frame:
         self.gen = {}
 
 
+class _PromotedFn:
+    """Body of a promoted constant (dumped for generic owners), runnable like a function."""
+
+    def __init__(self, owner, idx, raw):
+        self.id = "%s::{promoted#%d}" % (owner.id, idx)
+        self.raw = {}
+        self.blocks = raw["blocks"]
+        self.locals = raw["locals"]
+        self.nargs = 0
+        self.names = {}
+        self.file = owner.file
+        self.line = owner.line
+        self.prog = owner.prog
+        self.crate = owner.crate
+
+
 class Interp:
     def __init__(self, prog, effect_fns=(), max_steps=200000, max_depth=40):
         self.P = prog
@@ -488,6 +504,19 @@ class Interp:
             return Slice(raw, 0, len(raw))
         if "static" in k:
             return self.static_ref(k["static"])
+        if "pidx" in k and "item" in k:
+            # promoted constant of a generic function: evaluate its dumped body
+            owner = self.P.fns.get(self.P.norm(k["item"], False)) or (fr.fn if fr is not None and fr.fn is not None else None)
+            if fr is not None and fr.fn is not None and "promoteds" in fr.fn.raw:
+                owner = fr.fn
+            pr = (owner.raw.get("promoteds") or {}).get(str(k["pidx"])) if owner is not None else None
+            if pr is not None:
+                key = (owner.id, k["pidx"])
+                cache = self.__dict__.setdefault("_promoted_cache", {})
+                if key not in cache:
+                    pf = _PromotedFn(owner, k["pidx"], pr)
+                    cache[key] = self.run(pf, [], 0, fr.gen if fr is not None else None)
+                return cache[key]
         raise Unsupported("constant %r" % (k,))
 
     def static_ref(self, path):
@@ -850,7 +879,36 @@ class Interp:
                         gen[nm] = int(v)
                     elif fr is not None and v in fr.gen:
                         gen[nm] = fr.gen[v]
+                    else:
+                        gen[nm] = ("ty", v)
             return self.run(body, args, depth + 1, gen)
+        # unresolved trait method (generic receiver): dispatch on the receiver's concrete type
+        if "::" in name and args:
+            tr, meth = name.rsplit("::", 1)
+            impls = P.trait_impls().get((tr, meth), [])
+            if impls:
+                recv = args[0]
+                if isinstance(recv, Ref):
+                    try:
+                        recv = self.read_path(recv.frame, recv.local, recv.path)
+                    except Exception:
+                        recv = None
+                rpath = recv.path if isinstance(recv, Adt) else None
+                if rpath:
+                    for fid in impls:
+                        st = P.fns[fid].raw.get("self_ty", "")
+                        if P.norm(st.split("<", 1)[0], False) == rpath:
+                            return self.run(P.fns[fid], args, depth + 1)
+                # static trait method: Self is the first generic argument (possibly a bound type parameter)
+                g = k.get("g", []) if isinstance(k, dict) else []
+                if g:
+                    selfty = g[0].strip()
+                    if fr is not None and selfty in fr.gen and isinstance(fr.gen[selfty], tuple):
+                        selfty = fr.gen[selfty][1]
+                    for fid in impls:
+                        st = P.fns[fid].raw.get("self_ty", "")
+                        if st == selfty or P.norm(st, False) == P.norm(selfty, False):
+                            return self.run(P.fns[fid], args, depth + 1)
         return self.std(fr, name, fname, k, args, depth)
 
     def std(self, fr, name, fname, k, args, depth):
